@@ -416,6 +416,25 @@ fn run_check(env: &Env, id: &str, tier: &str, seed: u64) -> i32 {
 fn cleanup(env: &Env, id: &str) {
     if std::env::var("VERIF_KEEP_WORK").is_err() {
         let _ = std::fs::remove_dir_all(env.verif.join("work").join(id));
+        // the shard binaries of this property (dependencies stay cached)
+        let pre = format!("{}_", id.to_lowercase());
+        let pre2 = format!("corpus_{}", id.to_lowercase());
+        for sub in ["debug", "debug/deps", "release", "release/deps", "debug/.fingerprint", "release/.fingerprint"] {
+            let d = env.target_dir().join(sub);
+            if let Ok(rd) = std::fs::read_dir(&d) {
+                for e in rd.filter_map(|e| e.ok()) {
+                    let n = e.file_name().to_string_lossy().to_string();
+                    if n.starts_with(&pre) || n.starts_with(&pre2) || n.starts_with(&format!("lib{}", pre2)) {
+                        let p = e.path();
+                        if p.is_dir() {
+                            let _ = std::fs::remove_dir_all(&p);
+                        } else {
+                            let _ = std::fs::remove_file(&p);
+                        }
+                    }
+                }
+            }
+        }
     }
 }
 
